@@ -50,7 +50,7 @@ func (p *Program) assignLocs(con *Contract, sig *types.Signature) (locs []assign
 		case a == "fresh":
 			fresh = true
 			continue
-		case strings.HasPrefix(a, "H_") || strings.HasPrefix(a, "SH_") || strings.HasPrefix(a, "MH_") || strings.HasPrefix(a, "MD_") || strings.HasPrefix(a, "#") || strings.HasPrefix(a, "G_") || strings.HasPrefix(a, "Cell_") || a == "held":
+		case strings.HasPrefix(a, "H_") || strings.HasPrefix(a, "SH_") || strings.HasPrefix(a, "MH_") || strings.HasPrefix(a, "MD_") || strings.HasPrefix(a, "#") || strings.HasPrefix(a, "G_") || strings.HasPrefix(a, "Cell_") || a == "held" || a == "BUF_len":
 			locs = append(locs, assignLoc{array: a, all: true, src: a})
 			continue
 		}
